@@ -421,6 +421,26 @@ def redirects_two_files(sc):
     return (not getattr(sc, "interleaved_out", False)) if r is None else r
 
 
+TEMPLATES = {
+    # style: (normal -o, normal -p, combinatorial -o, combinatorial -p); the placeholder may sit anywhere in the path
+    "file": ("dm.{name}.1.fq", "dm.{name}.2.fq", "cb.{name1}.{name2}.1.fq", "cb.{name1}.{name2}.2.fq"),
+    "dir": ("dmd.{name}/r.1.fq", "dmd.{name}/r.2.fq", "cbd.{name1}.{name2}/r.1.fq", "cbd.{name1}.{name2}/r.2.fq"),
+    "dir-and-file": ("dmd.{name}/x.{name}.1.fq", "dmd.{name}/x.{name}.2.fq", "cbd.{name1}/{name2}.{name1}.1.fq", "cbd.{name1}/{name2}.{name1}.2.fq"),
+    "start": ("{name}.1.fq", "{name}.2.fq", "{name2}.{name1}.1.fq", "{name2}.{name1}.2.fq"),
+}
+
+
+def template(sc, which):
+    t = TEMPLATES[getattr(sc, "template_style", "file")]
+    return t[{"o": 0, "p": 1, "co": 2, "cp": 3}[which]]
+
+
+def expand(t, **names):
+    for k, v in names.items():
+        t = t.replace("{" + k + "}", v)
+    return t
+
+
 def output_layout(sc):
     """Destination name -> (file1, file2|None) for every file the main run is expected to create."""
     files = {}
@@ -434,11 +454,11 @@ def output_layout(sc):
     if sc.demux == "normal":
         names = list(dict.fromkeys(a["name"] for a in sc.ads1))
         for n in names:
-            files["demux:" + n] = (f"dm.{n}.1.fq", f"dm.{n}.2.fq" if p else None)
+            files["demux:" + n] = (expand(template(sc, "o"), name=n), expand(template(sc, "p"), name=n) if p else None)
         if opts.get("untrimmed_output"):
             files["untrimmed_file"] = ("ut1.fq", "ut2.fq" if pr else None)
         elif not opts.get("discard_untrimmed"):
-            files["demux:unknown"] = ("dm.unknown.1.fq", "dm.unknown.2.fq" if p else None)
+            files["demux:unknown"] = (expand(template(sc, "o"), name="unknown"), expand(template(sc, "p"), name="unknown") if p else None)
     elif sc.demux == "combinatorial":
         n1s = list(dict.fromkeys(a["name"] for a in sc.ads1))
         n2s = list(dict.fromkeys(a["name"] for a in sc.ads2))
@@ -446,7 +466,7 @@ def output_layout(sc):
         if not opts.get("discard_untrimmed"):
             combos += [("unknown", "unknown")] + [("unknown", b) for b in n2s] + [(a, "unknown") for a in n1s]
         for a, b in combos:
-            files[f"demux:{a}/{b}"] = (f"cb.{a}.{b}.1.fq", f"cb.{a}.{b}.2.fq")
+            files[f"demux:{a}/{b}"] = (expand(template(sc, "co"), name1=a, name2=b), expand(template(sc, "cp"), name1=a, name2=b))
     else:
         files["out"] = ("o1.fq", "o2.fq" if p else None)
         if opts.get("untrimmed_output"):
@@ -459,9 +479,9 @@ def main_argv(sc, report=None, cores=1, extra=()):
     if sc.paired and not p:
         extra = list(extra) + ["--interleaved"]
     if sc.demux == "normal":
-        io = ["-o", "dm.{name}.1.fq"] + (["-p", "dm.{name}.2.fq"] if p else [])
+        io = ["-o", template(sc, "o")] + (["-p", template(sc, "p")] if p else [])
     elif sc.demux == "combinatorial":
-        io = ["-o", "cb.{name1}.{name2}.1.fq", "-p", "cb.{name1}.{name2}.2.fq"]
+        io = ["-o", template(sc, "co"), "-p", template(sc, "cp")]
     else:
         io = ["-o", "o1.fq"] + (["-p", "o2.fq"] if p else [])
     argv = sc.adargs + sc.mods + sc.fargs + ["--json", "rep.json"] + list(extra)
@@ -503,7 +523,16 @@ def observe(ctx, rng, d, want):
             sc.side += ["--rest-file", "side.rest.txt"]
         else:
             sc.side += ["--wildcard-file", "side.wild.txt"]
+    sc.template_style = "file"
+    if sc.demux and rng.random() < want.get("template_styles_p", 0.0) and not any("/" in a["name"] for a in sc.ads1 + sc.ads2):
+        sc.template_style = rng.choice(["dir", "dir", "dir-and-file", "start"])
     sc.argv = main_argv(sc, sc.report, sc.cores, extra=sc.side)
+    sc.layout = output_layout(sc)
+    # the program does not create directories
+    for pair in sc.layout.values():
+        for f in pair:
+            if f and "/" in f:
+                os.makedirs(os.path.join(d, os.path.dirname(f)), exist_ok=True)
     sc.run = climon.run(d, sc.argv, tag="main", trace=want.get("trace", True), timeout=120)
     sc.case = climon.case_record(sc.argv, d, sc.inputs)
     sc.layout = output_layout(sc)
